@@ -144,25 +144,41 @@ func checkC09(c *Ctx, r *Report) {
 	if fi := need(c, r, "C09.d", "generator/routes.GetTemplateContext"); fi != nil {
 		viol := ""
 		var sites []string
-		nCfg, nLit := 0, 0
-		for _, sk := range w.fieldSinks(fi, ctxT, "PackageName") {
+		// whatever the shape (two assignments, or a default that is overridden): what can end up in
+		// PackageName is the configured name verbatim or a literal default that is an identifier
+		hasCfg, nDefault := false, 0
+		sinks := w.fieldSinks(fi, ctxT, "PackageName")
+		if len(sinks) == 0 {
+			viol = "RoutesContext.PackageName is never set"
+		}
+		for _, sk := range sinks {
 			sites = append(sites, w.pos(sk.Pos))
-			if bl, ok := sk.Expr.(*ast.BasicLit); ok && bl.Kind == token.STRING {
-				nLit++
-				if !token.IsIdentifier(unquote(bl.Value)) {
-					viol = "default package name " + bl.Value + " is not an identifier"
-				}
-				continue
-			}
 			a := w.exprAtoms(fi, sk.Expr)
-			if a.Fields["definitions.RoutesConfig.PackageName"] && len(a.Calls) == 0 && len(a.Lits) == 0 {
-				nCfg++
-			} else {
-				viol = fmt.Sprintf("%s: RoutesContext.PackageName is assigned something other than routesConfig.packageName or a literal default (%s)", w.pos(sk.Pos), a)
+			if a.Fields["definitions.RoutesConfig.PackageName"] {
+				hasCfg = true
+			}
+			for c := range a.Calls {
+				if !strings.HasPrefix(c, "conv:") {
+					viol = fmt.Sprintf("%s: RoutesContext.PackageName passes through %s: it is no longer routesConfig.packageName verbatim", w.pos(sk.Pos), c)
+				}
+			}
+			for f := range a.Fields {
+				if f != "definitions.RoutesConfig.PackageName" && f != "definitions.GleeceConfig.RoutesConfig" {
+					viol = fmt.Sprintf("%s: RoutesContext.PackageName also depends on %s", w.pos(sk.Pos), f)
+				}
+			}
+			for l := range a.Lits {
+				if !strings.HasPrefix(l, "\"") || l == `""` {
+					continue
+				}
+				nDefault++
+				if !token.IsIdentifier(unquote(l)) {
+					viol = "default package name " + l + " is not an identifier"
+				}
 			}
 		}
-		if viol == "" && (nCfg != 1 || nLit != 1) {
-			viol = fmt.Sprintf("expected one configured and one default assignment of PackageName, found %d/%d", nCfg, nLit)
+		if viol == "" && (!hasCfg || nDefault < 1) {
+			viol = fmt.Sprintf("PackageName must be the configured name or a literal default (configured: %v, literal defaults: %d)", hasCfg, nDefault)
 		}
 		r.add("C09.d", "fieldflow", fi.Key+":PackageName", "PackageName = routesConfig.packageName verbatim, or a literal default that is an identifier", []string{fi.Key}, sites, viol)
 	}
@@ -194,40 +210,49 @@ func checkImportAliases(c *Ctx, r *Report) {
 		return
 	}
 	info := fi.Pkg.TypesInfo
-	lits := map[string]*ast.CallExpr{}
-	w.inspectRegion(fi, func(n ast.Node) bool {
-		if cl, ok := n.(*ast.CallExpr); ok && calleeOfCall(info, cl) == "fmt.Sprintf" && len(cl.Args) == 3 {
-			lits[litString(cl.Args[0])] = cl
+	// alias spellings, however the string is put together (Sprintf, concatenation, builder)
+	type aliasFmt struct {
+		Args []ast.Expr
+		Pos  token.Pos
+	}
+	lits := map[string]aliasFmt{}
+	for _, sh := range w.stringShapes(fi) {
+		if len(sh.Args) == 2 {
+			lits[sh.Tmpl] = aliasFmt{sh.Args, sh.Pos}
 		}
-		// the same with the prefix factored out: Sprintf("%s%d%s", prefix, serial, name) in a new
-		// function whose call sites pass the prefix as a literal
-		if cl, ok := n.(*ast.CallExpr); ok && calleeOfCall(info, cl) == "fmt.Sprintf" && len(cl.Args) == 4 && litString(cl.Args[0]) == "%s%d%s" {
-			if id, isId := ast.Unparen(cl.Args[1]).(*ast.Ident); isId {
+		// the prefix factored out into a parameter of a new function: Sprintf("%s%d%s", prefix, serial, name)
+		if sh.Tmpl == "%s%d%s" && len(sh.Args) == 3 {
+			if id, isId := ast.Unparen(sh.Args[0]).(*ast.Ident); isId {
 				if _, exprs, bound := w.argsBoundTo(info.ObjectOf(id)); bound {
 					for _, e := range exprs {
 						if p := litString(e); p != "" {
-							// same operand positions as the three-argument form
-							lits[p+"%d%s"] = &ast.CallExpr{Fun: cl.Fun, Lparen: cl.Lparen, Args: []ast.Expr{cl.Args[0], cl.Args[2], cl.Args[3]}, Rparen: cl.Rparen}
+							lits[p+"%d%s"] = aliasFmt{sh.Args[1:], sh.Pos}
 						}
 					}
 				}
 			}
 		}
-		return true
-	})
+	}
 	var sites []string
 	viol := ""
 	pc, okP := lits["Param%d%s"]
 	rc, okR := lits["Response%d%s"]
 	if !okP || !okR {
-		viol = fmt.Sprintf("appendRouteImports no longer builds aliases with the literals \"Param%%d%%s\" / \"Response%%d%%s\" (found %v)", mapKeysCall(lits))
+		viol = fmt.Sprintf("appendRouteImports no longer builds aliases with the literals \"Param%%d%%s\" / \"Response%%d%%s\" (found %v)", func() []string {
+			var ks []string
+			for k := range lits {
+				ks = append(ks, k)
+			}
+			sort.Strings(ks)
+			return ks
+		}())
 	} else {
-		sites = append(sites, w.pos(pc.Pos()), w.pos(rc.Pos()))
-		a1, a2 := w.exprAtoms(fi, pc.Args[1]), w.exprAtoms(fi, pc.Args[2])
+		sites = append(sites, w.pos(pc.Pos), w.pos(rc.Pos))
+		a1, a2 := w.exprAtoms(fi, pc.Args[0]), w.exprAtoms(fi, pc.Args[1])
 		if !a1.Fields["definitions.FuncParam.UniqueImportSerial"] || !a2.Fields["definitions.ParamMeta.Name"] {
 			viol = "parameter alias is not Param<FuncParam.UniqueImportSerial><ParamMeta.Name>"
 		}
-		b1, b2 := w.exprAtoms(fi, rc.Args[1]), w.exprAtoms(fi, rc.Args[2])
+		b1, b2 := w.exprAtoms(fi, rc.Args[0]), w.exprAtoms(fi, rc.Args[1])
 		if !b1.Fields["definitions.FuncReturnValue.UniqueImportSerial"] || !b2.Fields["definitions.TypeMetadata.Name"] {
 			viol = "response alias is not Response<FuncReturnValue.UniqueImportSerial><TypeMetadata.Name>"
 		}
@@ -267,21 +292,20 @@ func checkImportAliases(c *Ctx, r *Report) {
 	// reader: helper literal
 	if hfi := w.fn("generator/routes.registerHandlebarsHelpers"); hfi != nil {
 		found := false
-		w.inspectRegion(hfi, func(n ast.Node) bool {
-			if cl, ok := n.(*ast.CallExpr); ok && calleeOfCall(hfi.Pkg.TypesInfo, cl) == "fmt.Sprintf" && len(cl.Args) >= 3 {
-				if l := litString(cl.Args[0]); strings.HasPrefix(l, "Response") {
-					sites = append(sites, w.pos(cl.Pos()))
-					found = true
-					if l != "Response%d%s.%s" {
-						viol = fmt.Sprintf("%s: helper GetLastTyeFullyQualified spells the response alias %q, the writer \"Response%%d%%s\"", w.pos(cl.Pos()), l)
-					}
-					if !strings.HasSuffix(exprString(cl.Args[1]), ".UniqueImportSerial") || !strings.HasSuffix(exprString(cl.Args[2]), ".Name") {
-						viol = fmt.Sprintf("%s: helper alias operands are not (UniqueImportSerial, Name)", w.pos(cl.Pos()))
-					}
-				}
+		for _, sh := range w.stringShapes(hfi) {
+			if !strings.HasPrefix(sh.Tmpl, "Response") || len(sh.Args) < 2 {
+				continue
 			}
-			return true
-		})
+			sites = append(sites, w.pos(sh.Pos))
+			found = true
+			if sh.Tmpl != "Response%d%s.%s" {
+				viol = fmt.Sprintf("%s: helper GetLastTyeFullyQualified spells the response alias %q, the writer \"Response%%d%%s\"", w.pos(sh.Pos), sh.Tmpl)
+			}
+			a1, a2 := w.exprAtoms(sh.Fi, sh.Args[0]), w.exprAtoms(sh.Fi, sh.Args[1])
+			if !a1.Fields["definitions.FuncReturnValue.UniqueImportSerial"] || !a2.Fields["definitions.TypeMetadata.Name"] {
+				viol = fmt.Sprintf("%s: helper alias operands are not (UniqueImportSerial, Name)", w.pos(sh.Pos))
+			}
+		}
 		if !found {
 			viol = "helper GetLastTyeFullyQualified no longer formats the response alias"
 		}
@@ -327,29 +351,18 @@ func checkImportAliases(c *Ctx, r *Report) {
 	if hfi := w.fn("generator/routes.registerHandlebarsHelpers"); hfi != nil {
 		viol := "UnpackImportsMap does not emit `alias \"path\"` lines"
 		var s3 []string
-		for _, rf := range w.astRegion(hfi) {
-			rf := rf
-			ast.Inspect(rf.Decl, func(n ast.Node) bool {
-				cl, ok := n.(*ast.CallExpr)
-				if !ok || len(cl.Args) < 3 {
-					return true
-				}
-				if cn := calleeOfCall(rf.Pkg.TypesInfo, cl); cn != "fmt.Sprintf" && cn != "fmt.Fprintf" {
-					return true
-				}
-				na := len(cl.Args)
-				if litString(cl.Args[na-3]) == "%s \"%s\"\n" {
-					s3 = append(s3, w.pos(cl.Pos()))
-					// first the alias (an element of the alias list looked up for the package),
-					// then the package path (the key that list was looked up with)
-					aliasAt := w.exprAtoms(rf, cl.Args[na-2])
-					pathAt := w.exprAtoms(rf, cl.Args[na-1])
-					if aliasAt.Ops["index"] && aliasAt.Ops["range"] && !pathAt.Ops["index"] {
-						viol = ""
-					}
-				}
-				return true
-			})
+		for _, sh := range w.stringShapes(hfi) {
+			if sh.Tmpl != "%s \"%s\"\n" || len(sh.Args) != 2 {
+				continue
+			}
+			s3 = append(s3, w.pos(sh.Pos))
+			// first the alias (an element of the alias list looked up for the package),
+			// then the package path (the key that list was looked up with)
+			aliasAt := w.exprAtoms(sh.Fi, sh.Args[0])
+			pathAt := w.exprAtoms(sh.Fi, sh.Args[1])
+			if aliasAt.Ops["index"] && aliasAt.Ops["range"] && !pathAt.Ops["index"] {
+				viol = ""
+			}
 		}
 		r.add("C09.c", "fieldflow", "routes.UnpackImportsMap:format", "imports are emitted as `<alias> \"<package path>\"`", []string{hfi.Key}, s3, viol)
 	}
